@@ -277,8 +277,11 @@ def elabRet (dbg : Bool) (Γ : Env) (e : SExpr) : Except Err IExpr :=
     | some rt => convertRet e' τ rt
 
 mutual
-/-- `parse_statement`: one source statement gives a list of typed statements (labels are statements of their own) -/
-def elabStmt (dbg : Bool) (Γ : Env) : SStmt → Except Err (IStmts × Env)
+/-- `parse_statement` (`sc = false`): one source statement gives a list of typed statements (labels are statements of their
+    own); and `parse_scopeblock` without its final `pop_scope` (`sc = true`): the statement is the body of an `if` / loop /
+    `switch`, whose scope it shares — a block statement is then read without opening a scope of its own and its statements
+    become the body directly, any other statement is read as usual -/
+def elabStmt (dbg : Bool) (sc : Bool) (Γ : Env) : SStmt → Except Err (IStmts × Env)
   | .emptyS => .ok (.nil, Γ)
   | .expr e =>
     match elabTop dbg Γ e with
@@ -291,22 +294,22 @@ def elabStmt (dbg : Bool) (Γ : Env) : SStmt → Except Err (IStmts × Env)
   | .block ss =>
     match elabStmts dbg Γ ss with
     | .error m => .error m
-    | .ok (ss', Γ') => .ok (.one (.block ss'), popScope Γ' Γ.vars.length)
+    | .ok (ss', Γ') => if sc then .ok (ss', Γ') else .ok (.one (.block ss'), popScope Γ' Γ.vars.length)
   | .ifS c s =>
     match elabTop dbg Γ c with
     | .error m => .error m
     | .ok (c', _) =>
-      match elabScoped dbg Γ s with
+      match elabStmt dbg true Γ s with
       | .error m => .error m
       | .ok (b, Γ') => .ok (.one (.ifS c' b), popScope Γ' Γ.vars.length)
   | .ifElse c s1 s2 =>
     match elabTop dbg Γ c with
     | .error m => .error m
     | .ok (c', _) =>
-      match elabScoped dbg Γ s1 with
+      match elabStmt dbg true Γ s1 with
       | .error m => .error m
       | .ok (b1, Γ1) =>
-        match elabScoped dbg (popScope Γ1 Γ.vars.length) s2 with
+        match elabStmt dbg true (popScope Γ1 Γ.vars.length) s2 with
         | .error m => .error m
         | .ok (b2, Γ2) => .ok (.one (.ifElse c' b1 b2), popScope Γ2 Γ.vars.length)
   | .forS init c n s =>
@@ -319,18 +322,18 @@ def elabStmt (dbg : Bool) (Γ : Env) : SStmt → Except Err (IStmts × Env)
         match elabOpt dbg Γ0 n with
         | .error m => .error m
         | .ok n' =>
-          match elabScoped dbg Γ0 s with
+          match elabStmt dbg true Γ0 s with
           | .error m => .error m
           | .ok (b, Γ') => .ok (.one (.forS init' c' n' b), popScope Γ' Γ.vars.length)
   | .whileS c s =>
     match elabTop dbg Γ c with
     | .error m => .error m
     | .ok (c', _) =>
-      match elabScoped dbg Γ s with
+      match elabStmt dbg true Γ s with
       | .error m => .error m
       | .ok (b, Γ') => .ok (.one (.whileS c' b), popScope Γ' Γ.vars.length)
   | .doS s c =>
-    match elabScoped dbg Γ s with
+    match elabStmt dbg true Γ s with
     | .error m => .error m
     | .ok (b, Γ') =>
       -- the condition is checked after the scope of the body has been closed
@@ -341,7 +344,7 @@ def elabStmt (dbg : Bool) (Γ : Env) : SStmt → Except Err (IStmts × Env)
     match elabTop dbg Γ c with
     | .error m => .error m
     | .ok (c', _) =>
-      match elabScoped dbg Γ s with
+      match elabStmt dbg true Γ s with
       | .error m => .error m
       | .ok (b, Γ') => .ok (.one (.switchS c' b), popScope Γ' Γ.vars.length)
   | .breakS => .ok (.one .breakS, Γ)
@@ -361,23 +364,19 @@ def elabStmt (dbg : Bool) (Γ : Env) : SStmt → Except Err (IStmts × Env)
     | .ok (c', _) =>
       match c' with
       | .lit _ =>
-        match elabStmt dbg Γ s with
+        match elabStmt dbg false Γ s with
         | .error m => .error m
         | .ok (ss, Γ') => .ok (.cons .caseLabel ss, Γ')
       | _ => .error (.unsupported "case label that is not a literal")
   | .defaultS s =>
-    match elabStmt dbg Γ s with
+    match elabStmt dbg false Γ s with
     | .error m => .error m
     | .ok (ss, Γ') => .ok (.cons .defaultLabel ss, Γ')
-/-- `parse_scopeblock`: a block statement is read in the scope its parent opened, any other statement likewise -/
-def elabScoped (dbg : Bool) (Γ : Env) : SStmt → Except Err (IStmts × Env)
-  | .block ss => elabStmts dbg Γ ss
-  | s => elabStmt dbg Γ s
 /-- `parse_statement_list` -/
 def elabStmts (dbg : Bool) (Γ : Env) : SStmts → Except Err (IStmts × Env)
   | .nil => .ok (.nil, Γ)
   | .cons s r =>
-    match elabStmt dbg Γ s with
+    match elabStmt dbg false Γ s with
     | .error m => .error m
     | .ok (ss, Γ') =>
       match elabStmts dbg Γ' r with
